@@ -141,6 +141,29 @@ func aggregateResultsIntoSet(paths []regoPathResultInternal) RegoPathResult {
 func aggregateResultsIntoArray(paths []regoPathResultInternal) RegoPathResult {
 	rego := make([]string, 0)
 	ruleName := profile.Genvar("path_array_rule")
+	if len(paths) > 1 {
+		// an array comprehension cannot have several bodies: one array per alternative, flattened into the result
+		rego = append(rego, fmt.Sprintf("%s = [ all_nodes |", ruleName))
+		rego = append(rego, "  alternatives = [")
+		for i, p := range paths {
+			rego = append(rego, "    [ nodes |")
+			for _, r := range p.rego {
+				rego = append(rego, "      "+r)
+			}
+			if i < len(paths)-1 {
+				rego = append(rego, "    ],")
+			} else {
+				rego = append(rego, "    ]")
+			}
+		}
+		rego = append(rego, "  ]")
+		rego = append(rego, "  all_nodes = alternatives[_][_]")
+		rego = append(rego, "]")
+		return RegoPathResult{
+			rego: rego,
+			rule: ruleName,
+		}
+	}
 	for i, p := range paths {
 		if i == 0 {
 			rego = append(rego, fmt.Sprintf("%s = [ nodes | ", ruleName)) // header of the rule
